@@ -1,7 +1,7 @@
 (* Proofs for C02/C03: grammar table, transformer invariant, interface of a successful read. *)
 From CG Require Import Verilog.ExprParse.
-From stdpp Require Import strings gmap sets.
-From CG Require Import Types Sem Api Gen.Gen_grammar Verilog.Ast Verilog.Read.
+From stdpp Require Import strings gmap sets fin_sets pretty.
+From CG Require Import Types Sem Fold Api Gen.Gen_grammar Verilog.Ast Verilog.Read Verilog.Write.
 Open Scope string_scope.
 
 (* ------------------------------------------------------------------ the grammar table *)
@@ -41,3 +41,445 @@ Definition grammar_table_okb : bool :=
 Definition refines (S : gset string) (c c' : circuit) : Prop :=
   ∀ v', consistent c' v' → ∃ v, consistent c v ∧ agrees S v v'.
 Definition equiv_on (S : gset string) (c c' : circuit) : Prop := refines S c c' ∧ refines S c' c.
+
+(* ------------------------------------------------------------------ the transformer's gates carry the expression's value *)
+(* placeholders *)
+Definition ph_step (st : circuit * outcome) (f : string) : circuit * outcome :=
+  match st with
+  | (g, Done) => if bool_decide (f ∈ dom g) then (g, Done) else add_plain_buf g f
+  | _ => st end.
+Lemma ph_fail l g e : foldl ph_step (g, Fail e) l = (g, Fail e).
+Proof. induction l; simpl; auto. Qed.
+Lemma ph_ok l : ∀ c1 c2, foldl ph_step (c1, Done) l = (c2, Done) →
+  c1 ⊆ c2 ∧ (∀ x, x ∈ dom c2 → x ∈ dom c1 ∨ (x ∈ l ∧ c2 !! x = Some (mk_node Buf false ∅))) ∧ (∀ x, x ∈ l → x ∈ dom c2).
+Proof.
+  induction l as [|f l IH]; intros c1 c2 H; simpl in H.
+  - injection H as <-. split; [done|]. split; [auto|]. intros x Hx. by apply elem_of_nil in Hx.
+  - case_bool_decide as Hf.
+    + destruct (IH _ _ H) as (Hs & Hn & Hd). split; [done|]. split.
+      * intros x Hx. destruct (Hn x Hx) as [?|[? ?]]; [by left|right]. split; [by right|done].
+      * intros x [->|Hx]%elem_of_cons; [|by apply Hd]. apply elem_of_dom. apply elem_of_dom in Hf as [i Hi].
+        exists i. by eapply lookup_weaken.
+    + unfold add_plain_buf in H. repeat case_bool_decide; try (rewrite ph_fail in H; discriminate).
+      destruct (starts_digit f); [rewrite ph_fail in H; discriminate|].
+      destruct (IH _ _ H) as (Hs & Hn & Hd).
+      assert (Hfresh : c1 !! f = None) by (by apply not_elem_of_dom).
+      split; [etrans; [|done]; by apply insert_subseteq|]. split.
+      * intros x Hx. destruct (Hn x Hx) as [Hx1|[? ?]].
+        -- rewrite dom_insert in Hx1. apply elem_of_union in Hx1 as [->%elem_of_singleton|?]; [|by left].
+           right. split; [by left|]. eapply lookup_weaken; [|done]. by rewrite lookup_insert.
+        -- right. split; [by right|done].
+      * intros x [->|Hx]%elem_of_cons; [|by apply Hd]. apply elem_of_dom. exists (mk_node Buf false ∅).
+        eapply lookup_weaken; [|done]. by rewrite lookup_insert.
+Qed.
+
+Lemma pairs_one us n : pairs us [n] = (λ u, (u, n)) <$> us.
+Proof. unfold pairs. induction us as [|u us IH]; [done|]. cbn. cbn in IH. by rewrite IH. Qed.
+Definition add_edges (c : circuit) (l : list (string * string)) := foldl (λ c' (p : string * string), add_edge c' p.1 p.2) c l.
+Lemma add_edges_cons c p l : add_edges c (p :: l) = add_edges (add_edge c p.1 p.2) l.
+Proof. done. Qed.
+Lemma add_edges_lookup us : ∀ (c : circuit) n,
+  (∀ x, x ≠ n → add_edges c ((λ u, (u, n)) <$> us) !! x = c !! x) ∧
+  add_edges c ((λ u, (u, n)) <$> us) !! n = upd_fi (λ s, list_to_set us ∪ s) <$> c !! n.
+Proof.
+  induction us as [|u us IH]; intros c n.
+  - split; [done|]. cbn. destruct (c !! n) as [[]|]; simpl; [|done]. unfold upd_fi. simpl. do 2 f_equal. set_solver.
+  - rewrite fmap_cons, add_edges_cons. cbn [fst snd]. destruct (IH (add_edge c u n) n) as [H1 H2]. split.
+    + intros x Hx. rewrite H1 by done. unfold add_edge. by rewrite lookup_alter_ne.
+    + rewrite H2. unfold add_edge. rewrite lookup_alter. destruct (c !! n) as [[]|]; simpl; [|done].
+      unfold upd_fi. simpl. do 2 f_equal. set_solver.
+Qed.
+Lemma connect_one c us n c' : connect_g c us [n] = (c', Done) →
+  (∀ x, x ≠ n → c' !! x = c !! x) ∧ (us ≠ [] → c' !! n = upd_fi (λ s, list_to_set us ∪ s) <$> c !! n).
+Proof.
+  unfold connect_g. intros H.
+  destruct (bool_decide (us = []) || bool_decide ([n] = [])) eqn:E.
+  - injection H as <-. split; [done|]. intros Hne. apply orb_true_iff in E as [E|E]; apply bool_decide_eq_true in E; done.
+  - destruct (negb (forallb _ _)); [discriminate|]. destruct (negb (connect_check _ _ _)); [discriminate|].
+    injection H as <-. rewrite pairs_one. destruct (add_edges_lookup us c n) as [H1 H2]. fold (add_edges c ((λ u, (u, n)) <$> us)). split; [exact H1|]. intros _. exact H2.
+Qed.
+
+Lemma add_g_rd c n t fi g' nm : add_g c n t fi [] rd_flags = (g', Done, nm) → n ∉ dom c → fi ≠ [] →
+  nm = n ∧ c ⊆ g' ∧ g' !! n = Some (mk_node t false (list_to_set fi)) ∧
+  (∀ x, x ∈ dom g' → x ∈ dom c ∨ x = n ∨ (x ∈ fi ∧ g' !! x = Some (mk_node Buf false ∅))).
+Proof.
+  intros H Hn Hfi. unfold add_g in H. simpl in H.
+  rewrite andb_false_r in H. simpl in H.
+  repeat (match type of H with (if ?b then _ else _) = _ => destruct b eqn:?; [discriminate|] end).
+  rewrite app_nil_r in H.
+  fold ph_step in H.
+  destruct (foldl ph_step _ fi) as [c1' o1] eqn:Hf.
+  destruct o1 as [|e]; [|discriminate].
+  simpl in H.
+  destruct (connect_g c1' fi [n]) as [c3 o3] eqn:Hc.
+  destruct o3 as [|e]; [|destruct e; discriminate].
+  injection H as <- <-. split; [done|].
+  apply ph_ok in Hf as (Hs & Hnew & Hd).
+  apply connect_one in Hc as [Hc1 Hc2]. specialize (Hc2 Hfi).
+  assert (Hcn : c !! n = None) by (by apply not_elem_of_dom).
+  assert (H1n : c1' !! n = Some (mk_node t false ∅)).
+  { eapply lookup_weaken; [|exact Hs]. rewrite lookup_insert. unfold fanin. by rewrite Hcn. }
+  split; [|split].
+  - apply map_subseteq_spec. intros x i Hx. assert (x ≠ n) by (intros ->; congruence).
+    rewrite Hc1 by done. eapply lookup_weaken; [|exact Hs]. by rewrite lookup_insert_ne.
+  - rewrite Hc2, H1n. simpl. unfold upd_fi, mk_node. simpl. do 2 f_equal. set_solver.
+  - intros x Hx. destruct (decide (x = n)) as [->|Hne]; [by right; left|].
+    assert (Hx' : x ∈ dom c1'). { apply elem_of_dom. rewrite <- Hc1 by done. by apply elem_of_dom. }
+    destruct (Hnew x Hx') as [Hd1|[Hl Hb]].
+    + left. rewrite dom_insert in Hd1. set_solver.
+    + right; right. split; [done|]. by rewrite Hc1.
+Qed.
+
+(* ---- uid freshness (same argument as Proofs/LimitProofs.v, repeated here to keep the files independent) ---- *)
+Definition uid_next (i : N) : N := if (i <? 10)%N then (i + 1)%N else (i * 7)%N.
+Lemma uid_next_gt i : (i < uid_next i)%N.
+Proof. unfold uid_next. destruct (N.ltb_spec i 10); lia. Qed.
+Definition uid_cand (n : string) (i : N) : string := n ++ "_" ++ pretty i.
+Lemma uid_cand_inj n i j : uid_cand n i = uid_cand n j → i = j.
+Proof. unfold uid_cand. intros H. apply (inj (String.append n)) in H. apply (inj (String.append "_")) in H. by apply (inj pretty) in H. Qed.
+Lemma uid_loop_pigeon (used : gset string) n : ∀ fuel i (seen : gset string),
+  seen ⊆ used → (∀ x, x ∈ seen → ∃ j, (j < i)%N ∧ x = uid_cand n j) →
+  uid_loop fuel used n i ∈ used → size seen + fuel + 1 ≤ size used.
+Proof.
+  induction fuel as [|fuel IH]; intros i seen Hsub Hseen Hin; simpl in Hin; fold (uid_cand n i) in Hin.
+  - assert (uid_cand n i ∉ seen). { intros (j & Hj & He)%Hseen. apply uid_cand_inj in He. lia. }
+    assert (size ({[uid_cand n i]} ∪ seen) ≤ size used) by (apply subseteq_size; set_solver).
+    rewrite size_union, size_singleton in * by set_solver. lia.
+  - case_bool_decide as Hc; [|done].
+    assert (uid_cand n i ∉ seen). { intros (j & Hj & He)%Hseen. apply uid_cand_inj in He. lia. }
+    fold (uid_next i) in Hin.
+    specialize (IH (uid_next i) ({[uid_cand n i]} ∪ seen)).
+    rewrite size_union, size_singleton in IH by set_solver.
+    assert (1 + size seen + fuel + 1 ≤ size used); [|lia]. apply IH; [set_solver| |done].
+    intros x [->%elem_of_singleton|Hx]%elem_of_union.
+    + exists i. split; [apply uid_next_gt|done].
+    + destruct (Hseen x Hx) as (j & Hj & ->). exists j. split; [|done]. pose proof (uid_next_gt i). lia.
+Qed.
+Lemma uid_in_fresh (used : gset string) n : uid_in used n ∉ used.
+Proof.
+  unfold uid_in. case_bool_decide; [|done]. intros Hin.
+  pose proof (uid_loop_pigeon used n (S (size used)) 0%N ∅) as Hp. rewrite size_empty in Hp.
+  assert (0 + S (size used) + 1 ≤ size used); [|lia]. apply Hp; [set_solver|set_solver|done].
+Qed.
+
+Lemma rbind_ok {A B} (x : res A) (f : A → res B) y : rbind x f = Ok y → ∃ a, x = Ok a ∧ f a = Ok y.
+Proof. destruct x; simpl; try discriminate. eauto. Qed.
+
+(* a gate callback creates exactly one fresh node with the given type and operands (plus placeholder buffers for
+   operands that are not nodes yet) and leaves every existing node alone *)
+Lemma gate_spec k st prefix t items fi rem st' r : gate k st prefix t items fi rem = Ok (st', r) → fi ≠ [] →
+  st.1 ⊆ st'.1 ∧ st'.1 !! r = Some (mk_node t false (list_to_set fi)) ∧ r ∉ dom st.1 ∧ r ∉ k_rsv k ∧
+  (∀ x, x ∈ dom st'.1 → x ∈ dom st.1 ∨ x = r ∨ (x ∈ fi ∧ st'.1 !! x = Some (mk_node Buf false ∅))) ∧
+  st'.2 ⊆ {[r]} ∪ st.2.
+Proof.
+  unfold gate, add_node. intros H Hfi. apply rbind_ok in H as ([g' nm] & H1 & H2). simpl in H2. injection H2 as <- <-.
+  set (n := uid_in (dom st.1 ∪ k_rsv k) (prefix ++ "_" ++ join_ items)) in *.
+  assert (Hn : n ∉ dom st.1 ∪ k_rsv k) by apply uid_in_fresh.
+  destruct (add_g st.1 n t fi [] rd_flags) as [[g2 o] nm2] eqn:Ha. destruct o; simpl in H1; [|discriminate].
+  injection H1 as <- <-.
+  apply add_g_rd in Ha as (-> & Hs & Hl & Hnew); [|set_solver|done].
+  simpl. repeat split; try done; try set_solver. destruct rem; set_solver.
+Qed.
+
+(* ---- values of one- and two-operand gates ---- *)
+Lemma consistent_mono (c c' : circuit) v : c ⊆ c' → consistent c' v → consistent c v.
+Proof. intros Hs H n i Hn. apply H. by eapply lookup_weaken. Qed.
+Lemma gv1 t v a : gate_val t v (list_to_set [a]) = xorb (g_inv t) (v a).
+Proof.
+  unfold gate_val. f_equal. change (gfold t (v <$> elements (list_to_set [a] : gset string)) = v a).
+  rewrite (gfold_split t v _ a) by set_solver.
+  replace (list_to_set [a] ∖ {[a]} : gset string) with (∅ : gset string) by set_solver.
+  rewrite elements_empty. simpl. apply g_op_unit.
+Qed.
+Lemma gv2 t v a b : a ≠ b → gate_val t v (list_to_set [a; b]) = xorb (g_inv t) (g_op t (v a) (v b)).
+Proof.
+  intros Hne. unfold gate_val. f_equal. change (gfold t (v <$> elements (list_to_set [a; b] : gset string)) = g_op t (v a) (v b)).
+  rewrite (gfold_split t v _ a) by set_solver. f_equal.
+  replace (list_to_set [a; b] ∖ {[a]} : gset string) with (list_to_set [b] : gset string) by set_solver.
+  rewrite (gfold_split t v _ b) by set_solver.
+  replace (list_to_set [b] ∖ {[b]} : gset string) with (∅ : gset string) by set_solver.
+  rewrite elements_empty. simpl. apply g_op_unit.
+Qed.
+Lemma gv2_and v a b : gate_val And v (list_to_set [a; b]) = v a && v b.
+Proof.
+  destruct (decide (a = b)) as [->|Hne]; [|rewrite gv2 by done; simpl; by destruct (v a), (v b)].
+  replace (list_to_set [b; b] : gset string) with (list_to_set [b] : gset string) by set_solver.
+  rewrite gv1. simpl. by destruct (v b).
+Qed.
+Lemma gv2_or v a b : gate_val Or v (list_to_set [a; b]) = v a || v b.
+Proof.
+  destruct (decide (a = b)) as [->|Hne]; [|rewrite gv2 by done; simpl; by destruct (v a), (v b)].
+  replace (list_to_set [b; b] : gset string) with (list_to_set [b] : gset string) by set_solver.
+  rewrite gv1. simpl. by destruct (v b).
+Qed.
+Lemma node_val (c : circuit) v n t (s : gset string) : consistent c v → c !! n = Some (mk_node t false s) → s ≠ ∅ →
+  t ∈ [Not; And; Or; Xor; Xnor] → v n = gate_val t v s.
+Proof.
+  intros Hc Hn Hs Ht. specialize (Hc n _ Hn). unfold node_ok, is_free in Hc. simpl in Hc.
+  rewrite !elem_of_cons, elem_of_nil in Ht. destruct Ht as [->|[->|[->|[->|[->|[]]]]]]; simpl in Hc; try done.
+  by rewrite bool_decide_eq_false_2 in Hc.
+Qed.
+
+Definition ties_ok (k : rctx) (g : circuit) : Prop :=
+  (∃ i, g !! k_t0 k = Some i ∧ n_ty i = C0) ∧ (∃ i, g !! k_t1 k = Some i ∧ n_ty i = C1).
+Lemma ties_mono k (g g' : circuit) : g ⊆ g' → ties_ok k g → ties_ok k g'.
+Proof. intros Hs [(i & H0 & ?) (j & H1 & ?)]. split; [exists i|exists j]; split; try done; by eapply lookup_weaken. Qed.
+Lemma tie0_val k g v : ties_ok k g → consistent g v → v (k_t0 k) = false.
+Proof. intros [(i & H0 & Ht) _] Hc. specialize (Hc _ _ H0). unfold node_ok, is_free in Hc. by rewrite Ht in Hc. Qed.
+Lemma tie1_val k g v : ties_ok k g → consistent g v → v (k_t1 k) = true.
+Proof. intros [_ (i & H0 & Ht)] Hc. specialize (Hc _ _ H0). unfold node_ok, is_free in Hc. by rewrite Ht in Hc. Qed.
+
+(* the invariant of one compilation function *)
+Definition cstate := (circuit * gset string)%type.
+Definition c_ok {T} (cf : rctx → cstate → T → res (cstate * string)) (sf : (string → bool) → bool → T → bool) (e : T) : Prop :=
+  ∀ k st st' r, cf k st e = Ok (st', r) →
+    st.1 ⊆ st'.1 ∧ ∀ v, ties_ok k st.1 → consistent st'.1 v → v r = sf v (v (k_tx k)) e.
+
+Lemma set1_ne (a : string) : (list_to_set [a] : gset string) ≠ ∅. Proof. set_solver. Qed.
+Lemma set2_ne (a b : string) : (list_to_set [a; b] : gset string) ≠ ∅. Proof. set_solver. Qed.
+
+Theorem compile_all :
+  (∀ p, c_ok c_prim sem_prim p) ∧ (∀ u, c_ok c_unary sem_unary u) ∧ (∀ a, c_ok c_and sem_and a) ∧
+  (∀ x, c_ok c_xor sem_xor x) ∧ (∀ o, c_ok c_or sem_or o).
+Proof.
+  apply expr_mutind; unfold c_ok.
+  - (* PId *) intros s k st st' r H. simpl in H. injection H as <- <-. split; [done|]. done.
+  - (* PConst *) intros c k st st' r H. simpl in H. injection H as <- <-. split; [done|]. intros v Ht Hc.
+    destruct c; simpl; [by eapply tie0_val|by eapply tie1_val|done].
+  - (* PParen *) intros o IH k st st' r H. simpl in H. by apply IH.
+  - (* UPrim *) intros p IH k st st' r H. simpl in H. by apply IH.
+  - (* UNot *) intros p IH k st st' r H. simpl in H. apply rbind_ok in H as ([st1 r1] & H1 & H2). simpl in H2.
+    destruct (IH _ _ _ _ H1) as [Hs1 Hv1].
+    apply gate_spec in H2 as (Hs2 & Hl & _); [|done]. cbn [fst snd] in *.
+    split; [by etrans|]. intros v Ht Hc.
+    rewrite (node_val _ v r Not _ Hc Hl (set1_ne _)) by set_solver. rewrite gv1. simpl.
+    rewrite (Hv1 v Ht) by (by eapply consistent_mono). done.
+  - (* AUn *) intros u IH k st st' r H. simpl in H. by apply IH.
+  - (* AAnd *) intros a IHa u IHu k st st' r H. simpl in H.
+    apply rbind_ok in H as ([st1 r1] & H1 & H). simpl in H. apply rbind_ok in H as ([st2 r2] & H2 & H). simpl in H.
+    destruct (IHa _ _ _ _ H1) as [Hs1 Hv1]. destruct (IHu _ _ _ _ H2) as [Hs2 Hv2]. cbn [fst snd] in *.
+    apply gate_spec in H as (Hs3 & Hl & _); [|done]. cbn [fst snd] in *.
+    split; [by do 2 (etrans; [done|])|]. intros v Ht Hc.
+    rewrite (node_val _ v r And _ Hc Hl (set2_ne _ _)) by set_solver. rewrite gv2_and.
+    rewrite (Hv1 v Ht) by (eapply consistent_mono; [|done]; by etrans).
+    rewrite (Hv2 v (ties_mono _ _ _ Hs1 Ht)) by (by eapply consistent_mono). done.
+  - (* XAnd *) intros a IH k st st' r H. simpl in H. by apply IH.
+  - (* XXor *) intros x IHx a IHa k st st' r H. simpl in H.
+    apply rbind_ok in H as ([st1 r1] & H1 & H). simpl in H. apply rbind_ok in H as ([st2 r2] & H2 & H). simpl in H.
+    destruct (IHx _ _ _ _ H1) as [Hs1 Hv1]. destruct (IHa _ _ _ _ H2) as [Hs2 Hv2]. cbn [fst snd] in *.
+    case_bool_decide as Heq.
+    + injection H as <- <-. split; [by etrans|]. intros v Ht Hc.
+      assert (Ht2 : ties_ok k st2.1) by (eapply ties_mono; [|done]; by etrans). rewrite (tie0_val k st2.1 v Ht2 Hc).
+      simpl. rewrite <- (Hv1 v Ht) by (by eapply consistent_mono). rewrite <- (Hv2 v (ties_mono _ _ _ Hs1 Ht) Hc).
+      subst r2. by destruct (v r1).
+    + apply gate_spec in H as (Hs3 & Hl & _); [|done]. cbn [fst snd] in *.
+      split; [by do 2 (etrans; [done|])|]. intros v Ht Hc.
+      rewrite (node_val _ v r Xor _ Hc Hl (set2_ne _ _)) by set_solver. rewrite gv2 by done. simpl.
+      rewrite (Hv1 v Ht) by (eapply consistent_mono; [|done]; by etrans).
+      rewrite (Hv2 v (ties_mono _ _ _ Hs1 Ht)) by (by eapply consistent_mono).
+      by destruct (sem_xor _ _ _), (sem_and _ _ _).
+  - (* XXnor *) intros x IHx a IHa k st st' r H. simpl in H.
+    apply rbind_ok in H as ([st1 r1] & H1 & H). simpl in H. apply rbind_ok in H as ([st2 r2] & H2 & H). simpl in H.
+    destruct (IHx _ _ _ _ H1) as [Hs1 Hv1]. destruct (IHa _ _ _ _ H2) as [Hs2 Hv2]. cbn [fst snd] in *.
+    case_bool_decide as Heq.
+    + injection H as <- <-. split; [by etrans|]. intros v Ht Hc.
+      assert (Ht2 : ties_ok k st2.1) by (eapply ties_mono; [|done]; by etrans). rewrite (tie1_val k st2.1 v Ht2 Hc).
+      simpl. rewrite <- (Hv1 v Ht) by (by eapply consistent_mono). rewrite <- (Hv2 v (ties_mono _ _ _ Hs1 Ht) Hc).
+      subst r2. by destruct (v r1).
+    + apply gate_spec in H as (Hs3 & Hl & _); [|done]. cbn [fst snd] in *.
+      split; [by do 2 (etrans; [done|])|]. intros v Ht Hc.
+      rewrite (node_val _ v r Xnor _ Hc Hl (set2_ne _ _)) by set_solver. rewrite gv2 by done. simpl.
+      rewrite (Hv1 v Ht) by (eapply consistent_mono; [|done]; by etrans).
+      rewrite (Hv2 v (ties_mono _ _ _ Hs1 Ht)) by (by eapply consistent_mono). done.
+  - (* OXor *) intros x IH k st st' r H. simpl in H. by apply IH.
+  - (* OOr *) intros o IHo x IHx k st st' r H. simpl in H.
+    apply rbind_ok in H as ([st1 r1] & H1 & H). simpl in H. apply rbind_ok in H as ([st2 r2] & H2 & H). simpl in H.
+    destruct (IHo _ _ _ _ H1) as [Hs1 Hv1]. destruct (IHx _ _ _ _ H2) as [Hs2 Hv2]. cbn [fst snd] in *.
+    apply gate_spec in H as (Hs3 & Hl & _); [|done]. cbn [fst snd] in *.
+    split; [by do 2 (etrans; [done|])|]. intros v Ht Hc.
+    rewrite (node_val _ v r Or _ Hc Hl (set2_ne _ _)) by set_solver. rewrite gv2_or.
+    rewrite (Hv1 v Ht) by (eapply consistent_mono; [|done]; by etrans).
+    rewrite (Hv2 v (ties_mono _ _ _ Hs1 Ht)) by (by eapply consistent_mono). done.
+Qed.
+
+Lemma mbind_ok {A B} (x : res A) (f : A → res B) y : (x ≫= f) = Ok y → ∃ a, x = Ok a ∧ f a = Ok y.
+Proof. apply rbind_ok. Qed.
+
+Theorem compile_cond_ok e : c_ok c_cond sem_cond e.
+Proof.
+  destruct compile_all as (_ & _ & _ & _ & Hor).
+  destruct e as [o|s a b]; unfold c_ok; intros k st st' r H.
+  - simpl in H. by apply Hor.
+  - unfold c_cond in H.
+    apply mbind_ok in H as ([st1 r1] & H1 & H). apply mbind_ok in H as ([st2 r2] & H2 & H).
+    apply mbind_ok in H as ([st3 r3] & H3 & H). cbn [fst snd] in H.
+    apply mbind_ok in H as ([gn n] & Hn & H). apply mbind_ok in H as ([ga0 a0] & Ha0 & H).
+    apply mbind_ok in H as ([ga1 a1] & Ha1 & H). cbn [fst snd] in *.
+    destruct (Hor s _ _ _ _ H1) as [Hs1 Hv1]. destruct (Hor a _ _ _ _ H2) as [Hs2 Hv2]. destruct (Hor b _ _ _ _ H3) as [Hs3 Hv3].
+    cbn [fst snd] in *.
+    apply gate_spec in Hn as (Hsn & Hln & _); [|done].
+    apply gate_spec in Ha0 as (Hsa0 & Hla0 & _); [|done].
+    apply gate_spec in Ha1 as (Hsa1 & Hla1 & _); [|done].
+    apply gate_spec in H as (Hso & Hlo & _); [|done]. cbn [fst snd] in *.
+    assert (S3 : st3.1 ⊆ st'.1) by (etrans; [exact Hsn|]; etrans; [exact Hsa0|]; etrans; [exact Hsa1|exact Hso]).
+    assert (S2 : st2.1 ⊆ st'.1) by (by etrans).
+    assert (S1 : st1.1 ⊆ st'.1) by (by etrans).
+    split; [by etrans|]. intros v Ht Hc.
+    assert (Hn' : st'.1 !! n = Some (mk_node Not false (list_to_set [r1]))).
+    { eapply lookup_weaken; [exact Hln|]. etrans; [exact Hsa0|]. etrans; [exact Hsa1|exact Hso]. }
+    assert (Ha0' : st'.1 !! a0 = Some (mk_node And false (list_to_set [n; r3]))).
+    { eapply lookup_weaken; [exact Hla0|]. etrans; [exact Hsa1|exact Hso]. }
+    assert (Ha1' : st'.1 !! a1 = Some (mk_node And false (list_to_set [r1; r2]))).
+    { eapply lookup_weaken; [exact Hla1|exact Hso]. }
+    rewrite (node_val _ v r Or _ Hc Hlo (set2_ne _ _)) by set_solver. rewrite gv2_or.
+    rewrite (node_val _ v a0 And _ Hc Ha0' (set2_ne _ _)) by set_solver. rewrite gv2_and.
+    rewrite (node_val _ v a1 And _ Hc Ha1' (set2_ne _ _)) by set_solver. rewrite gv2_and.
+    rewrite (node_val _ v n Not _ Hc Hn' (set1_ne _)) by set_solver. rewrite gv1.
+    rewrite (Hv1 v Ht) by (by eapply consistent_mono).
+    rewrite (Hv2 v (ties_mono _ _ _ Hs1 Ht)) by (by eapply consistent_mono).
+    rewrite (Hv3 v (ties_mono _ _ _ Hs2 (ties_mono _ _ _ Hs1 Ht))) by (by eapply consistent_mono).
+    simpl. by destruct (sem_or v _ s), (sem_or v _ a), (sem_or v _ b).
+Qed.
+
+(* ------------------------------------------------------------------ port list versus declarations *)
+Lemma rfold_app {A B} (f : A → B → res A) l1 : ∀ a l2, rfold f a (l1 ++ l2) = rbind (rfold f a l1) (λ a', rfold f a' l2).
+Proof. induction l1 as [|b l1 IH]; intros a l2; simpl; [done|]. destruct (f a b); simpl; auto. Qed.
+Definition item_ins (it : item) : list string := match it with IInput l => l | _ => [] end.
+Definition item_outs (it : item) : list string := match it with IOutput l => l | _ => [] end.
+Lemma c_item_sets k st it st' : c_item k st it = Ok st' →
+  r_io st' = r_io st ∧ r_ins st' = r_ins st ∪ list_to_set (item_ins it) ∧ r_outs st' = r_outs st ∪ list_to_set (item_outs it).
+Proof.
+  destruct it as [ns|ns|ns|mn insts|l]; simpl; intros H.
+  - apply mbind_ok in H as (g & _ & H). injection H as <-. simpl. set_solver.
+  - injection H as <-. simpl. set_solver.
+  - injection H as <-. set_solver.
+  - apply mbind_ok in H as (r & _ & H). destruct (prim_of_name mn).
+    + apply mbind_ok in H as (g' & _ & H). injection H as <-. simpl. set_solver.
+    + destruct (find_bb k mn); [|discriminate]. apply mbind_ok in H as (x & _ & H). injection H as <-. simpl. set_solver.
+  - apply mbind_ok in H as (r & _ & H). injection H as <-. simpl. set_solver.
+Qed.
+Lemma items_sets k items : ∀ st st', rfold (c_item k) st items = Ok st' →
+  r_io st' = r_io st ∧ r_ins st' = r_ins st ∪ list_to_set (items ≫= item_ins) ∧ r_outs st' = r_outs st ∪ list_to_set (items ≫= item_outs).
+Proof.
+  induction items as [|it items IH]; intros st st' H; simpl in H.
+  - injection H as <-. simpl. set_solver.
+  - apply rbind_ok in H as (st1 & H1 & H2). apply c_item_sets in H1 as (E1 & E2 & E3). apply IH in H2 as (F1 & F2 & F3).
+    rewrite F1, F2, F3, E1, E2, E3. simpl. rewrite !list_to_set_app_L. set_solver.
+Qed.
+(* a port list that disagrees with the declarations is never accepted *)
+Theorem read_rejects_port_mismatch rsv bbs m C : read rsv bbs m = Ok C → ports_match m = true.
+Proof.
+  unfold read. destruct (init_ctx rsv bbs) as [k g0]. intros H. apply mbind_ok in H as (st & H1 & H2).
+  apply items_sets in H1 as (E1 & E2 & E3). simpl in E1, E2, E3.
+  unfold finish in H2. repeat case_bool_decide; simpl in H2; try discriminate.
+  unfold ports_match. apply bool_decide_eq_true.
+  change (decl_inputs m) with (m_items m ≫= item_ins). change (decl_outputs m) with (m_items m ≫= item_outs).
+  rewrite E1, E2, E3 in *. set_solver.
+Qed.
+
+(* ------------------------------------------------------------------ the tree type implements the rule table *)
+(* derivations of a rule table over the token type of ExprParse.v: a terminal string stands for its token (both spellings
+   of not / xnor / each constant give the same token), the terminal IDENTIFIER for any TId *)
+Global Instance tok_eq_dec : EqDecision tok. Proof. solve_decision. Defined.
+Definition term_table : list (string * tok) :=
+  [("1'b0", TConst K0); ("1'h0", TConst K0); ("1'b1", TConst K1); ("1'h1", TConst K1); ("1'bx", TConst KX); ("1'hx", TConst KX);
+   ("?", TQ); (":", TColon); ("|", TOr); ("^", TXor); ("~^", TXnor); ("^~", TXnor); ("&", TAnd); ("!", TNot); ("~", TNot);
+   ("(", TLp); (")", TRp)].
+Inductive der (G : list (string * bool * list (list gsym))) : string → list tok → Prop :=
+| der_ident s : der G "IDENTIFIER" [TId s]
+| der_rule nt inl alts alt ts : (nt, inl, alts) ∈ G → alt ∈ alts → ders G alt ts → der G nt ts
+with ders (G : list (string * bool * list (list gsym))) : list gsym → list tok → Prop :=
+| ders_nil : ders G [] []
+| ders_T s t r ts : (s, t) ∈ term_table → ders G r ts → ders G (GT s :: r) (t :: ts)
+| ders_A l s t r ts : s ∈ l → (s, t) ∈ term_table → ders G r ts → ders G (GAlt l :: r) (t :: ts)
+| ders_N nt r ts1 ts2 : der G nt ts1 → ders G r ts2 → ders G (GN nt :: r) (ts1 ++ ts2).
+Lemma ders_N1 G nt ts : der G nt ts → ders G [GN nt] ts.
+Proof. intros H. rewrite <- (app_nil_r ts). apply ders_N; [done|constructor]. Qed.
+Ltac mem := repeat first [apply elem_of_list_here | apply elem_of_list_further].
+(* a unit rule nt -> nt' *)
+Lemma der_unit nt nt' inl alts ts : (nt, inl, alts) ∈ expected_rules → [GN nt'] ∈ alts → der expected_rules nt' ts → der expected_rules nt ts.
+Proof. intros H1 H2 H. eapply der_rule; [exact H1|exact H2|by apply ders_N1]. Qed.
+
+Theorem print_derivable_all :
+  (∀ p, der expected_rules "primary" (pr_prim p)) ∧ (∀ u, der expected_rules "unary" (pr_unary u)) ∧
+  (∀ a, der expected_rules "and" (pr_and a)) ∧ (∀ x, der expected_rules "xor" (pr_xor x)) ∧ (∀ o, der expected_rules "or" (pr_or o)).
+Proof.
+  apply expr_mutind.
+  - intros s. eapply der_unit; [mem|mem|constructor].
+  - intros c. eapply (der_unit _ "constant_value"); [mem|mem|]. destruct c; simpl.
+    + eapply (der_unit _ "constant_zero"); [mem|mem|]. eapply (der_rule _ _ _ _ [GT "1'b0"]); [mem|mem|]. apply ders_T; [mem|constructor].
+    + eapply (der_unit _ "constant_one"); [mem|mem|]. eapply (der_rule _ _ _ _ [GT "1'b1"]); [mem|mem|]. apply ders_T; [mem|constructor].
+    + eapply (der_unit _ "constant_x"); [mem|mem|]. eapply (der_rule _ _ _ _ [GT "1'bx"]); [mem|mem|]. apply ders_T; [mem|constructor].
+  - intros o IH. simpl. eapply (der_rule _ _ _ _ [GT "("; GN "or"; GT ")"]); [mem|mem|].
+    apply ders_T; [mem|]. apply ders_N; [exact IH|]. apply ders_T; [mem|constructor].
+  - intros p IH. simpl. eapply der_unit; [mem|mem|exact IH].
+  - intros p IH. simpl. eapply (der_unit _ "not_gate"); [mem|mem|].
+    eapply (der_rule _ _ _ _ [GAlt ["!"; "~"]; GN "primary"]); [mem|mem|]. eapply (ders_A _ _ "~"); [mem|mem|]. by apply ders_N1.
+  - intros u IH. simpl. eapply der_unit; [mem|mem|exact IH].
+  - intros a IHa u IHu. simpl. eapply (der_unit _ "and_gate"); [mem|mem|].
+    eapply (der_rule _ _ _ _ [GN "and"; GT "&"; GN "unary"]); [mem|mem|]. apply ders_N; [exact IHa|]. apply ders_T; [mem|]. by apply ders_N1.
+  - intros a IH. simpl. eapply der_unit; [mem|mem|exact IH].
+  - intros x IHx a IHa. simpl. eapply (der_unit _ "xor_gate"); [mem|mem|].
+    eapply (der_rule _ _ _ _ [GN "xor"; GT "^"; GN "and"]); [mem|mem|]. apply ders_N; [exact IHx|]. apply ders_T; [mem|]. by apply ders_N1.
+  - intros x IHx a IHa. simpl. eapply (der_unit _ "xnor_gate"); [mem|mem|].
+    eapply (der_rule _ _ _ _ [GN "xor"; GT "~^"; GN "and"]); [mem|mem|]. apply ders_N; [exact IHx|]. apply ders_T; [mem|]. by apply ders_N1.
+  - intros x IH. simpl. eapply der_unit; [mem|mem|exact IH].
+  - intros o IHo x IHx. simpl. eapply (der_unit _ "or_gate"); [mem|mem|].
+    eapply (der_rule _ _ _ _ [GN "or"; GT "|"; GN "xor"]); [mem|mem|]. apply ders_N; [exact IHo|]. apply ders_T; [mem|]. by apply ders_N1.
+Qed.
+Theorem print_derivable : grammar_table_okb = true → ∀ c, der grammar_rules "condition" (pr_cond c).
+Proof.
+  intros Hok c. apply andb_true_iff in Hok as [Hok _]. apply bool_decide_eq_true in Hok. rewrite Hok.
+  destruct print_derivable_all as (_ & _ & _ & _ & Hor). destruct c as [o|s a b]; simpl.
+  - eapply der_unit; [mem|mem|apply Hor].
+  - eapply (der_unit _ "ternary"); [mem|mem|].
+    eapply (der_rule _ _ _ _ [GN "or"; GT "?"; GN "or"; GT ":"; GN "or"]); [mem|mem|].
+    apply ders_N; [apply Hor|]. apply ders_T; [mem|]. apply ders_N; [apply Hor|]. apply ders_T; [mem|]. apply ders_N1, Hor.
+Qed.
+
+(* ------------------------------------------------------------------ the writer's expressions (C03) *)
+Lemma chain_and_sem v x r : ∀ acc, sem_and v x (foldl (λ acc y, AAnd acc (pid y)) acc r) = foldl andb (sem_and v x acc) (v <$> r).
+Proof. induction r as [|y r IH]; intros acc; simpl; [done|]. by rewrite IH. Qed.
+Lemma chain_xor_sem v x r : ∀ acc, sem_xor v x (foldl (λ acc y, XXor acc (AUn (pid y))) acc r) = foldl xorb (sem_xor v x acc) (v <$> r).
+Proof. induction r as [|y r IH]; intros acc; simpl; [done|]. by rewrite IH. Qed.
+Lemma chain_or_sem v x r : ∀ acc, sem_or v x (foldl (λ acc y, OOr acc (XAnd (AUn (pid y)))) acc r) = foldl orb (sem_or v x acc) (v <$> r).
+Proof. induction r as [|y r IH]; intros acc; simpl; [done|]. by rewrite IH. Qed.
+
+Lemma foldl_gfold t l : ∀ a, foldl (g_op t) a l = gfold t (a :: l).
+Proof.
+  unfold gfold. induction l as [|b l IH]; intros a; simpl.
+  - by rewrite g_op_unit.
+  - rewrite IH. simpl. by rewrite g_op_assoc.
+Qed.
+
+(* the right-hand side the writer emits for a gate denotes the gate's function of its operands, for every gate type,
+   every number of operands and every operand order *)
+Theorem beh_expr_sem t f r v x : t ∈ gate_types → (t = Buf ∨ t = Not → r = []) →
+  sem_cond v x (beh_expr t f r) = xorb (g_inv t) (gfold t (v <$> f :: r)).
+Proof.
+  intros Ht Hr. rewrite fmap_cons, <- foldl_gfold.
+  unfold gate_types in Ht. rewrite !elem_of_cons, elem_of_nil in Ht.
+  destruct Ht as [->|[->|[->|[->|[->|[->|[->|[->|[]]]]]]]]]; simpl;
+    try (rewrite Hr by auto; simpl);
+    unfold chain_and, chain_xor, chain_or;
+    rewrite ?chain_and_sem, ?chain_xor_sem, ?chain_or_sem; simpl;
+    try done; try (by destruct (foldl _ _ _)); by destruct (v f).
+Qed.
+Corollary beh_expr_gate_val t f r v x : t ∈ gate_types → (t = Buf ∨ t = Not → r = []) → NoDup (f :: r) →
+  sem_cond v x (beh_expr t f r) = gate_val t v (list_to_set (f :: r)).
+Proof.
+  intros Ht Hr Hnd. rewrite beh_expr_sem by done. unfold gate_val. f_equal.
+  apply gfold_perm. apply fmap_Permutation. symmetry. by apply elements_list_to_set.
+Qed.
+Lemma const_expr_sem t v x : t ∈ const_types → sem_cond v x (const_expr t) = match t with C0 => false | C1 => true | _ => x end.
+Proof. unfold const_types. rewrite !elem_of_cons, elem_of_nil. intros [->|[->|[->|[]]]]; done. Qed.
+
+(* writer and reader composed, one gate: the node the reader returns for the emitted right-hand side carries the gate's
+   function of its operands *)
+Theorem roundtrip_gate_expr k st t f r st' n : t ∈ gate_types → (t = Buf ∨ t = Not → r = []) → NoDup (f :: r) →
+  c_cond k st (beh_expr t f r) = Ok (st', n) →
+  st.1 ⊆ st'.1 ∧ ∀ v, ties_ok k st.1 → consistent st'.1 v → v n = gate_val t v (list_to_set (f :: r)).
+Proof.
+  intros Ht Hr Hnd H. destruct (compile_cond_ok _ _ _ _ _ H) as [Hs Hv]. split; [done|]. intros v Hk Hc.
+  rewrite (Hv v Hk Hc). by apply beh_expr_gate_val.
+Qed.
